@@ -4,7 +4,8 @@ random.Random instance passed in, so a (seed, index) pair replays exactly."""
 import random
 
 TEXTS = ["a", "b", "c", "d", "", "a b", "a  b", "a\tb", " a", "\ta", "a ", "a\t ", "  ", "x", "#x", "--- q", "+++ q",
-         "@@ -1 +1 @@", "*** 1 ****", "\\ x", "a\rb", "< a", "> a", "---", "***************", "1c1", "ab", "ba"]
+         "@@ -1 +1 @@", "*** 1 ****", "\\ x", "a\rb", "< a", "> a", "---", "***************", "1c1", "ab", "ba",
+         "a\x00b", "\x00", "\xe9\x80z", "\x1b[0m"]
 SMALL = ["a", "b", "c"]
 
 
